@@ -272,7 +272,7 @@ fn emit_spec_exhaustive(fibers: usize, interval: u64, maxes: &[usize], delays: &
 }
 
 fn random_spec(rng: &mut Rng, max_fibers: usize) -> String {
-    let interval = *rng.pick(&[1u64, 2, 7, 10, 10, 10, 100]);
+    let interval = *rng.pick(&[0u64, 1, 2, 7, 10, 10, 10, 100]);
     let max = rng.below(5) as usize;
     let n = 1 + rng.below(max_fibers as u64) as usize;
     let mut line = format!("spec {} {}", max, interval);
@@ -326,6 +326,39 @@ fn random_gate(rng: &mut Rng, max_targets: usize) -> String {
     line
 }
 
+/// Small pool of target scripts for the exhaustive `gate` sweep (interval is 10):
+/// quick/slow success, quick/slow/very slow ignorable error moving on, definitive error stopping the fiber,
+/// no connection, same-target retry, ignored write error.
+const GATE_POOL: [&str; 9] = [
+    "1:5:ok:n",
+    "1:15:ok:n",
+    "1:5:Overloaded:n",
+    "1:15:Unavailable:n",
+    "1:25:ServerError:n",
+    "1:15:Invalid:d",
+    "0:0:ok:n",
+    "1:15:ReadTimeout:s",
+    "1:5:WriteTimeout:i",
+];
+
+fn emit_gate_exhaustive(targets: usize, emit: &mut dyn FnMut(String)) {
+    let total = GATE_POOL.len().pow(targets as u32);
+    for idem in [0, 1] {
+        for pol in ["none", "0:10", "1:10", "2:10"] {
+            for code in 0..total {
+                let mut c = code;
+                let mut line = format!("gate {} {}", idem, pol);
+                for _ in 0..targets {
+                    line.push(' ');
+                    line.push_str(GATE_POOL[c % GATE_POOL.len()]);
+                    c /= GATE_POOL.len();
+                }
+                emit(line);
+            }
+        }
+    }
+}
+
 pub fn generate(rng: &mut Rng, tier: Tier, emit: &mut dyn FnMut(String)) {
     let quick = tier == Tier::Quick;
     // classification table: the whole universe
@@ -336,20 +369,25 @@ pub fn generate(rng: &mut Rng, tier: Tier, emit: &mut dyn FnMut(String)) {
     // exhaustive: (delay on the half-interval grid incl. ties with the timer, outcome class) per fiber x max 0..4
     let interval = 10u64;
     let grid: Vec<u64> = vec![0, 5, 10, 15, 20, 30];
-    emit_spec_exhaustive(1, interval, &[0, 1, 2, 3, 4], &grid, emit);
-    emit_spec_exhaustive(2, interval, &[0, 1, 2, 3, 4], &grid, emit);
-    if quick {
-        emit_spec_exhaustive(3, interval, &[0, 1, 2, 3, 4], &[0, 5, 10, 20], emit);
-    } else {
-        emit_spec_exhaustive(3, interval, &[0, 1, 2, 3, 4], &grid, emit);
-        emit_spec_exhaustive(4, interval, &[1, 3, 4], &[0, 5, 10, 25], emit);
-        emit_spec_exhaustive(5, interval, &[4], &[5, 10, 45], emit);
+    let all_max = [0usize, 1, 2, 3, 4];
+    emit_spec_exhaustive(1, interval, &all_max, &grid, emit);
+    emit_spec_exhaustive(2, interval, &all_max, &grid, emit);
+    emit_spec_exhaustive(3, interval, &all_max, &grid, emit);
+    for t in 0..=3 {
+        emit_gate_exhaustive(t, emit);
     }
-    let scale = if quick { 1 } else { 15 };
-    for _ in 0..6_000 * scale {
+    if quick {
+        emit_spec_exhaustive(4, interval, &[3, 4], &[5, 10, 25], emit);
+    } else {
+        emit_spec_exhaustive(4, interval, &[1, 2, 4], &grid, emit);
+        emit_spec_exhaustive(5, interval, &[3, 4], &[5, 10, 45], emit);
+        emit_gate_exhaustive(4, emit);
+    }
+    let scale = if quick { 1 } else { 12 };
+    for _ in 0..20_000 * scale {
         emit(random_spec(rng, 6));
     }
-    for _ in 0..8_000 * scale {
+    for _ in 0..30_000 * scale {
         emit(random_gate(rng, 6));
     }
 }
@@ -408,7 +446,7 @@ fn run_ign(w: &[&str], ctx: &mut Ctx) -> String {
     got.to_string()
 }
 
-fn run_spec(w: &[&str], ctx: &mut Ctx) -> String {
+fn run_spec(w: &[&str], mutant: Option<u32>, ctx: &mut Ctx) -> String {
     if w.len() < 3 {
         return "bad-case".to_owned();
     }
@@ -456,7 +494,10 @@ fn run_spec(w: &[&str], ctx: &mut Ctx) -> String {
                 }
             }
         };
-        let r = tokio::time::timeout(Duration::from_millis(HORIZON_MS), hooks::execute(&policy, generator)).await;
+        let r = match mutant {
+            None => tokio::time::timeout(Duration::from_millis(HORIZON_MS), hooks::execute(&policy, generator)).await,
+            Some(k) => tokio::time::timeout(Duration::from_millis(HORIZON_MS), mutant_execute(k, max, interval, generator)).await,
+        };
         (r, t0.elapsed().as_millis() as u64)
     });
     let starts = starts.borrow();
@@ -536,6 +577,61 @@ fn run_spec(w: &[&str], ctx: &mut Ctx) -> String {
         rendered,
         at
     )
+}
+
+/// Oracle self-test only: a transcription of `speculative_execution::execute` with one seeded bug.
+/// 0 = faithful copy; 1 = `retries_remaining` not decremented; 2 = return the first completion whatever its class;
+/// 3 = return test without `async_tasks.is_empty()`; 4 = return test without `retries_remaining == 0`;
+/// 5 = `None` does not clear `retries_remaining`; 6 = `last_error` keeps the first error; 7 = no return test at all;
+/// 8 = timer not re-armed; 9 = `is_speculative` flag inverted.
+async fn mutant_execute<QueryFut, T>(
+    bug: u32,
+    max: usize,
+    interval: u64,
+    mut query_runner_generator: impl FnMut(bool) -> QueryFut,
+) -> Result<T, RequestError>
+where
+    QueryFut: std::future::Future<Output = Option<Result<T, RequestError>>>,
+{
+    use futures::{future::FutureExt, stream::{FuturesUnordered, StreamExt}};
+    let mut retries_remaining = max;
+    let retry_interval = Duration::from_millis(interval);
+    let mut async_tasks = FuturesUnordered::new();
+    async_tasks.push(query_runner_generator(bug == 9));
+    let sleep = tokio::time::sleep(retry_interval).fuse();
+    tokio::pin!(sleep);
+    let mut last_error = None;
+    loop {
+        futures::select! {
+            _ = &mut sleep => {
+                if retries_remaining > 0 {
+                    async_tasks.push(query_runner_generator(bug != 9));
+                    if bug != 1 { retries_remaining -= 1; }
+                    if bug != 8 { sleep.set(tokio::time::sleep(retry_interval).fuse()); }
+                }
+            }
+            res = async_tasks.select_next_some() => {
+                if let Some(r) = res {
+                    if !hooks::can_be_ignored(&r) || bug == 2 {
+                        return r;
+                    } else if bug != 6 || last_error.is_none() {
+                        last_error = Some(r)
+                    }
+                } else if bug != 5 {
+                    retries_remaining = 0;
+                }
+                let done = match bug {
+                    3 => retries_remaining == 0,
+                    4 => async_tasks.is_empty(),
+                    7 => false,
+                    _ => async_tasks.is_empty() && retries_remaining == 0,
+                };
+                if done {
+                    return last_error.unwrap_or(Err(RequestError::EmptyPlan));
+                }
+            }
+        }
+    }
 }
 
 // ---- gate: the real run_request_no_side_effects -------------------------------------------------
@@ -782,7 +878,13 @@ pub fn run(case: &str, ctx: &mut Ctx) -> String {
     let w: Vec<&str> = case.split_whitespace().collect();
     match w.first().copied() {
         Some("ign") => run_ign(&w, ctx),
-        Some("spec") => run_spec(&w, ctx),
+        Some("spec") => run_spec(&w, None, ctx),
+        // developer self-test of the oracle (never generated): `mut<k>` runs a local copy of the select loop with
+        // seeded bug k instead of the driver's `execute`
+        Some(m) if m.starts_with("mut") => match m[3..].parse::<u32>() {
+            Ok(k) => run_spec(&w, Some(k), ctx),
+            Err(_) => "bad-case".to_owned(),
+        },
         Some("gate") => run_gate(&w, ctx),
         _ => "bad-case".to_owned(),
     }
